@@ -351,7 +351,7 @@ static bool randomModReal(Ctx& c, int o, Gen& gen, int maxDim)
 }
 
 // build in a brand-new object the LP that object o currently reports, with the same settings, and solve it
-static void freshSolve(Ctx& c, int o)
+static void freshSolve(Ctx& c, int o, bool transplantBasis = false)
 {
    SoPlex& s = *c.objs[o];
    int id = c.nextId++;
@@ -375,6 +375,17 @@ static void freshSolve(Ctx& c, int o)
       DSVector r; s.getRowVectorReal(i, r);
       f.addRowReal(LPRow(s.lhsReal(i), r, s.rhsReal(i)));
       modEvent(c, id, "addRow", rowJson(s.lhsReal(i), spReal(r), s.rhsReal(i)));
+   }
+   if(transplantBasis && s.hasBasis())
+   {
+      // C04: a basis the solver has returned is reusable in a new object holding the same LP
+      std::vector<SPxSolver::VarStatus> br(nr + 1), bc(nc + 1);
+      s.getBasis(br.data(), bc.data());
+      f.setBasis(br.data(), bc.data());
+      c.modsSinceBasis[id] = 0;
+      J ev; ev.s("a", "setBasis").i("o", id).raw("brow", statuses(br.data(), nr)).raw("bcol", statuses(bc.data(), nc));
+      emit(c, id, ev);
+      queryBasis(c, id);
    }
    SolveOpts so; optimize(c, id, so);
    c.objs.erase(id);
@@ -433,6 +444,235 @@ static void wlMods(Ctx& c, int nexec, int len, int genMode)
    }
 }
 
+
+// ---------------------------------------------------------------- witnessed LPs (C01 C02 C16)
+struct LPData
+{
+   int n = 0, m = 0; int sense = -1;
+   std::vector<std::vector<double>> A;      // m x n
+   std::vector<double> lhs, rhs, lo, up, c;
+   std::string kind;                        // OPT INF UNB
+   std::vector<double> x, y, d, ray, farkas;
+};
+static double dotRow(const LPData& L, int i, const std::vector<double>& v) { double a = 0; for(int j = 0; j < L.n; j++) a += L.A[i][j] * v[j]; return a; }
+
+static LPData genWitnessed(Rng& g, int maxDim, const std::string& kind, double scaleSpread)
+{
+   LPData L; L.kind = kind; L.n = g.R(1, maxDim); L.m = g.R(1, maxDim); L.sense = g.coin() ? -1 : 1;
+   int n = L.n, m = L.m;
+   L.A.assign(m, std::vector<double>(n, 0.0)); L.lhs.assign(m, -infinity); L.rhs.assign(m, infinity);
+   L.lo.assign(n, -infinity); L.up.assign(n, infinity); L.c.assign(n, 0.0);
+   int dens = g.R(30, 90);
+   for(int i = 0; i < m; i++) for(int j = 0; j < n; j++) if(g.R(0, 99) < dens) { double v; do v = g.R(-3, 3); while(v == 0); L.A[i][j] = v; }
+   // structures named in the quantifier: empty row/column, duplicate rows, singleton rows
+   if(g.coin(1, 5)) { int i = g.R(0, m - 1); for(int j = 0; j < n; j++) L.A[i][j] = 0; }
+   if(g.coin(1, 5)) { int j = g.R(0, n - 1); for(int i = 0; i < m; i++) L.A[i][j] = 0; }
+   if(m >= 2 && g.coin(1, 4)) { int a = g.R(0, m - 1), b = g.R(0, m - 1); if(a != b) { double f = g.coin() ? 1 : 2; for(int j = 0; j < n; j++) L.A[b][j] = f * L.A[a][j]; } }
+   if(g.coin(1, 4)) { int i = g.R(0, m - 1), k = g.R(0, n - 1); for(int j = 0; j < n; j++) if(j != k) L.A[i][j] = 0; if(L.A[i][k] == 0) L.A[i][k] = 1; }
+   L.x.assign(n, 0.0); for(int j = 0; j < n; j++) L.x[j] = g.R(-3, 3);
+   L.y.assign(m, 0.0); L.d.assign(n, 0.0);
+   // columns: bound type and position of x*, sign of d* (minimisation convention, flipped at the end for max)
+   for(int j = 0; j < n; j++)
+   {
+      int t = g.R(0, 5);
+      switch(t)
+      {
+      case 0: break;                                                               // free, d = 0
+      case 1: L.lo[j] = L.x[j]; L.d[j] = g.R(0, 2); break;                          // at lower, upper infinite
+      case 2: L.up[j] = L.x[j]; L.d[j] = -g.R(0, 2); break;                         // at upper
+      case 3: L.lo[j] = L.x[j] - g.R(1, 3); L.up[j] = L.x[j] + g.R(1, 3); break;    // boxed, inside
+      case 4: if(g.coin()) { L.lo[j] = L.x[j]; L.up[j] = L.x[j] + g.R(1, 4); L.d[j] = g.R(0, 2); }
+              else { L.up[j] = L.x[j]; L.lo[j] = L.x[j] - g.R(1, 4); L.d[j] = -g.R(0, 2); } break;   // boxed at a bound
+      case 5: L.lo[j] = L.up[j] = L.x[j]; L.d[j] = g.R(-2, 2); break;               // fixed
+      }
+   }
+   for(int i = 0; i < m; i++)
+   {
+      double act = dotRow(L, i, L.x); int t = g.R(0, 5);
+      switch(t)
+      {
+      case 0: break;                                                                // free row
+      case 1: L.lhs[i] = act; L.y[i] = g.R(0, 2); break;                            // >= active
+      case 2: L.rhs[i] = act; L.y[i] = -g.R(0, 2); break;                           // <= active
+      case 3: L.lhs[i] = act - g.R(1, 3); L.rhs[i] = act + g.R(1, 3); break;         // ranged inactive
+      case 4: if(g.coin()) { L.lhs[i] = act; L.rhs[i] = act + g.R(1, 4); L.y[i] = g.R(0, 2); }
+              else { L.rhs[i] = act; L.lhs[i] = act - g.R(1, 4); L.y[i] = -g.R(0, 2); } break;
+      case 5: L.lhs[i] = L.rhs[i] = act; L.y[i] = g.R(-2, 2); break;                 // equation
+      }
+   }
+   for(int j = 0; j < n; j++) { double a = L.d[j]; for(int i = 0; i < m; i++) a += L.A[i][j] * L.y[i]; L.c[j] = a; }
+   if(kind == "UNB")
+   {
+      // keep x feasible, open the LP along an improving ray
+      L.ray.assign(n, 0.0); int k = g.R(1, std::min(n, 2));
+      for(int t = 0; t < k; t++) L.ray[g.R(0, n - 1)] = g.coin() ? 1 : -1;
+      bool nz = false; for(double v : L.ray) nz = nz || v != 0; if(!nz) L.ray[0] = 1;
+      for(int j = 0; j < n; j++) { if(L.ray[j] > 0) L.up[j] = infinity; if(L.ray[j] < 0) L.lo[j] = -infinity; }
+      for(int i = 0; i < m; i++) { double ar = dotRow(L, i, L.ray); if(ar > 0) L.rhs[i] = infinity; if(ar < 0) L.lhs[i] = -infinity; }
+      double cr = 0; for(int j = 0; j < n; j++) cr += L.c[j] * L.ray[j];
+      if(cr >= 0) { for(int j = 0; j < n; j++) if(L.ray[j] != 0) { L.c[j] -= (cr + 1) * L.ray[j]; break; } }   // now c.r = -1 < 0 (min)
+   }
+   if(kind == "INF")
+   {
+      // combine up to 3 rows with finite rhs (a_k x <= r_k) and demand the combination to exceed its bound by 1
+      std::vector<int> cand; for(int i = 0; i < m; i++) if(L.rhs[i] < infinity) cand.push_back(i);
+      L.farkas.assign(m + 1, 0.0);
+      std::vector<double> comb(n, 0.0); double r = 0;
+      if(!cand.empty())
+      {
+         int k = g.R(1, std::min((int)cand.size(), 3)); std::shuffle(cand.begin(), cand.end(), g.g);
+         for(int t = 0; t < k; t++) { double lam = g.R(1, 2); int i = cand[t]; for(int j = 0; j < n; j++) comb[j] += lam * L.A[i][j]; r += lam * L.rhs[i]; L.farkas[i] = -lam; }
+      }
+      // columns with finite upper/lower bounds may contribute their box maximum
+      for(int j = 0; j < n; j++) if(g.coin(1, 3))
+      {
+         double w = g.R(-2, 2); if(w > 0 && L.up[j] < infinity) { comb[j] += w; r += w * L.up[j]; }
+         else if(w < 0 && L.lo[j] > -infinity) { comb[j] += w; r += w * L.lo[j]; }
+      }
+      L.A.push_back(comb); L.lhs.push_back(r + 1); L.rhs.push_back(g.coin() ? infinity : r + 1 + g.R(0, 3)); L.m++;
+      L.farkas[m] = 1;
+   }
+   if(L.sense == 1) { for(double& v : L.c) v = -v; for(double& v : L.y) v = -v; for(double& v : L.d) v = -v; }
+   if(scaleSpread > 0)
+   {
+      // spread magnitudes by exact powers of two (row and column factors) so that scalers choose non-trivial exponents;
+      // witnesses are transformed accordingly and stay exact
+      std::vector<int> re(L.m), ce(L.n); int sp = (int)scaleSpread;
+      for(int& e : re) e = g.R(-sp, sp); for(int& e : ce) e = g.R(-sp, sp);
+      for(int i = 0; i < L.m; i++) { for(int j = 0; j < L.n; j++) L.A[i][j] = std::ldexp(L.A[i][j], re[i] + ce[j]);
+         if(L.lhs[i] > -infinity) L.lhs[i] = std::ldexp(L.lhs[i], re[i]); if(L.rhs[i] < infinity) L.rhs[i] = std::ldexp(L.rhs[i], re[i]); }
+      for(int j = 0; j < L.n; j++) { if(L.lo[j] > -infinity) L.lo[j] = std::ldexp(L.lo[j], -ce[j]); if(L.up[j] < infinity) L.up[j] = std::ldexp(L.up[j], -ce[j]);
+         L.c[j] = std::ldexp(L.c[j], ce[j]); L.x[j] = std::ldexp(L.x[j], -ce[j]); L.d[j] = std::ldexp(L.d[j], ce[j]);
+         if(!L.ray.empty()) L.ray[j] = std::ldexp(L.ray[j], -ce[j]); }
+      for(int i = 0; i < L.m; i++) { if(i < (int)L.y.size()) L.y[i] = std::ldexp(L.y[i], -re[i]); if(!L.farkas.empty()) L.farkas[i] = std::ldexp(L.farkas[i], -re[i]); }
+   }
+   return L;
+}
+
+static std::string spRowOf(const LPData& L, int i, DSVector& v)
+{
+   std::vector<std::pair<int, std::string>> e; v.clear();
+   for(int j = 0; j < L.n; j++) if(L.A[i][j] != 0) { v.add(j, L.A[i][j]); e.push_back({j, qd(L.A[i][j])}); }
+   return jsp(e);
+}
+// enter the LP through addColsReal (empty columns) + addRowsReal and announce the witness
+static void loadLP(Ctx& c, int o, const LPData& L, bool oneByOne)
+{
+   SoPlex& s = *c.objs[o];
+   setInt(c, o, "OBJSENSE", SoPlex::OBJSENSE, L.sense);
+   if(oneByOne)
+   {
+      for(int j = 0; j < L.n; j++) { DSVector e; s.addColReal(LPCol(L.c[j], e, L.up[j], L.lo[j])); modEvent(c, o, "addCol", colJson(L.c[j], L.lo[j], "[]", L.up[j])); }
+      for(int i = 0; i < L.m; i++) { DSVector v; std::string vj = spRowOf(L, i, v); s.addRowReal(LPRow(L.lhs[i], v, L.rhs[i])); modEvent(c, o, "addRow", rowJson(L.lhs[i], vj, L.rhs[i])); }
+   }
+   else
+   {
+      LPColSet cs; std::ostringstream cj; cj << "[";
+      for(int j = 0; j < L.n; j++) { DSVector e; cs.add(L.c[j], L.lo[j], e, L.up[j]); cj << (j ? "," : "") << colJson(L.c[j], L.lo[j], "[]", L.up[j]); }
+      cj << "]"; s.addColsReal(cs); modEvent(c, o, "addCols", "{\"cols\":" + cj.str() + "}");
+      LPRowSet rs; std::ostringstream rj; rj << "[";
+      for(int i = 0; i < L.m; i++) { DSVector v; std::string vj = spRowOf(L, i, v); rs.add(L.lhs[i], v, L.rhs[i]); rj << (i ? "," : "") << rowJson(L.lhs[i], vj, L.rhs[i]); }
+      rj << "]"; s.addRowsReal(rs); modEvent(c, o, "addRows", "{\"rows\":" + rj.str() + "}");
+   }
+}
+static void witness(Ctx& c, int o, const LPData& L)
+{
+   J ev; ev.s("a", "witness").i("o", o).s("kind", L.kind);
+   std::vector<double> act(L.m);
+   for(int i = 0; i < L.m; i++) act[i] = dotRow(L, i, L.x);
+   if(L.kind == "OPT") ev.raw("sol", "{\"x\":" + jdbl(L.x) + ",\"s\":" + jdbl(act) + ",\"y\":" + jdbl(L.y) + ",\"d\":" + jdbl(L.d) + "}");
+   else ev.raw("sol", "{\"x\":[],\"s\":[],\"y\":[],\"d\":[]}");
+   ev.raw("x", L.kind == "UNB" ? jdbl(L.x) : "[]").raw("ray", L.kind == "UNB" ? jdbl(L.ray) : "[]");
+   ev.raw("farkas", L.kind == "INF" ? jdbl(L.farkas) : "[]");
+   emit(c, o, ev);
+}
+// core family: the configuration space in which completeness is claimed (see DESIGN.md section 4 C01);
+// exotic = the full product of all algorithmic parameters (soundness only)
+static bool g_exotic = false;
+static void fullConfig(Ctx& c, int o)
+{
+   static const int corePricer[] = {SoPlex::PRICER_AUTO, SoPlex::PRICER_DANTZIG, SoPlex::PRICER_DEVEX, SoPlex::PRICER_QUICKSTEEP, SoPlex::PRICER_STEEP};
+   static const int coreScaler[] = {SoPlex::SCALER_OFF, SoPlex::SCALER_UNIEQUI, SoPlex::SCALER_BIEQUI, SoPlex::SCALER_GEO1, SoPlex::SCALER_GEO8, SoPlex::SCALER_GEOEQUI};
+   setInt(c, o, "ALGORITHM", SoPlex::ALGORITHM, c.rng.R(0, 1));
+   setInt(c, o, "FACTOR_UPDATE_TYPE", SoPlex::FACTOR_UPDATE_TYPE, c.rng.R(0, 1));
+   setBool(c, o, "PERSISTENTSCALING", SoPlex::PERSISTENTSCALING, c.rng.coin());
+   setInt(c, o, "SIMPLIFIER", SoPlex::SIMPLIFIER, c.rng.coin() ? SoPlex::SIMPLIFIER_OFF : SoPlex::SIMPLIFIER_INTERNAL);
+   setBool(c, o, "ENSURERAY", SoPlex::ENSURERAY, c.rng.coin());
+   if(g_exotic)
+   {
+      setInt(c, o, "REPRESENTATION", SoPlex::REPRESENTATION, c.rng.R(0, 2));
+      setInt(c, o, "PRICER", SoPlex::PRICER, c.rng.R(0, 5));
+      setInt(c, o, "RATIOTESTER", SoPlex::RATIOTESTER, c.rng.R(0, 3));
+      setInt(c, o, "SCALER", SoPlex::SCALER, c.rng.R(0, 6));
+      setInt(c, o, "STARTER", SoPlex::STARTER, c.rng.R(0, 3));
+      setInt(c, o, "SOLUTION_POLISHING", SoPlex::SOLUTION_POLISHING, c.rng.R(0, 2));
+      if(c.rng.coin(1, 3)) setBool(c, o, "FULLPERTURBATION", SoPlex::FULLPERTURBATION, true);
+      if(c.rng.coin(1, 3)) setBool(c, o, "ROWBOUNDFLIPS", SoPlex::ROWBOUNDFLIPS, true);
+   }
+   else
+   {
+      setInt(c, o, "REPRESENTATION", SoPlex::REPRESENTATION, c.rng.coin() ? SoPlex::REPRESENTATION_AUTO : SoPlex::REPRESENTATION_COLUMN);
+      setInt(c, o, "PRICER", SoPlex::PRICER, corePricer[c.rng.R(0, 4)]);
+      setInt(c, o, "RATIOTESTER", SoPlex::RATIOTESTER, c.rng.coin() ? SoPlex::RATIOTESTER_FAST : SoPlex::RATIOTESTER_BOUNDFLIPPING);
+      setInt(c, o, "SCALER", SoPlex::SCALER, coreScaler[c.rng.R(0, 5)]);
+   }
+}
+// one LP of a known class per execution, solved under `len` random configurations (new object each time)
+static void wlCert(Ctx& c, int nexec, int len, int maxDim, int spread, int infunbHeavy = 0)
+{
+   static const char* kinds0[] = {"OPT", "OPT", "INF", "UNB"};
+   static const char* kinds1[] = {"OPT", "INF", "INF", "UNB"};
+   const char** kinds = infunbHeavy ? kinds1 : kinds0;
+   for(int e = 0; e < nexec; e++)
+   {
+      T().line("{\"a\":\"Reset\"}");
+      c.objs.clear(); c.nextId = 0;
+      LPData L = genWitnessed(c.rng, maxDim, kinds[c.rng.R(0, 3)], spread);
+      for(int k = 0; k < len; k++)
+      {
+         int o = createObj(c);
+         if(k > 0 || c.rng.coin()) fullConfig(c, o);
+         if(c.rng.coin(1, 3)) setReal(c, o, "OBJ_OFFSET", SoPlex::OBJ_OFFSET, (double)c.rng.R(-5, 5));
+         loadLP(c, o, L, c.rng.coin(1, 4));
+         witness(c, o, L);
+         SolveOpts so; so.complete = !g_exotic; optimize(c, o, so);
+         if(c.rng.coin(1, 3)) queryBasis(c, o);
+         if(c.rng.coin(1, 4)) { SolveOpts so2; so2.complete = !g_exotic; optimize(c, o, so2); }      // warm re-solve of the unmodified object
+         c.objs.erase(o);
+         { J ev; ev.s("a", "destroy").i("o", o); emit(c, o, ev); }
+      }
+   }
+}
+
+// C04: every point of a history at which hasBasis() is true; set/read back; transplant into a new object
+static void wlBasis(Ctx& c, int nexec, int len)
+{
+   for(int e = 0; e < nexec; e++)
+   {
+      T().line("{\"a\":\"Reset\"}");
+      c.objs.clear(); c.nextId = 0;
+      Gen gen{c.rng, 0};
+      int o = createObj(c);
+      if(c.rng.coin()) fullConfig(c, o);
+      LPData L = genWitnessed(c.rng, 5, c.rng.coin(3, 4) ? "OPT" : (c.rng.coin() ? "INF" : "UNB"), 0);
+      loadLP(c, o, L, false);
+      int maxDim = 6; bool arbitraryBasis = false;
+      for(int step = 0; step < len; step++)
+      {
+         int k = c.rng.R(0, 99);
+         SoPlex& s = *c.objs[o];
+         bool solvable = s.numCols() > 0 && s.numRows() > 0;
+         if(k < 35) { int tries = 0; while(!randomModReal(c, o, gen, maxDim) && ++tries < 50) {} queryBasis(c, o); }
+         else if(k < 65) { if(!solvable) continue; SolveOpts so; so.complete = !arbitraryBasis; optimize(c, o, so); arbitraryBasis = false; queryBasis(c, o);
+                           if(c.rng.coin()) freshSolve(c, o, true); }
+         else if(k < 85) { setRandomBasis(c, o); arbitraryBasis = true; queryBasis(c, o); }
+         else if(k < 90) { clearBasis(c, o); arbitraryBasis = false; queryBasis(c, o); }
+         else { if(!solvable) continue; setInt(c, o, "ITERLIMIT", SoPlex::ITERLIMIT, c.rng.R(0, 3)); SolveOpts so; so.limited = true; so.complete = false; optimize(c, o, so); queryBasis(c, o);
+                setInt(c, o, "ITERLIMIT", SoPlex::ITERLIMIT, -1); }
+      }
+   }
+}
+
 int main(int argc, char** argv)
 {
    if(argc < 6) { fprintf(stderr, "usage: api_drv <workload> <seed> <nexec> <len> <out>\n"); return 2; }
@@ -443,6 +683,14 @@ int main(int argc, char** argv)
    Ctx c(seed);
    if(wl == "mods") wlMods(c, nexec, len, 0);
    else if(wl == "mods2") wlMods(c, nexec, len, 1);
+   else if(wl == "certx") { g_exotic = true; wlCert(c, nexec, len, 5, 0); }
+   else if(wl == "certbigx") { g_exotic = true; wlCert(c, nexec, len, 14, 0); }
+   else if(wl == "cert") wlCert(c, nexec, len, 5, 0);
+   else if(wl == "cert2") wlCert(c, nexec, len, 5, 0, 1);
+   else if(wl == "certbig2") wlCert(c, nexec, len, 14, 0, 1);
+   else if(wl == "basis") wlBasis(c, nexec, len);
+   else if(wl == "certbig") wlCert(c, nexec, len, 14, 0);
+   else if(wl == "certscaled") wlCert(c, nexec, len, 6, 12);
    else { fprintf(stderr, "unknown workload %s\n", wl.c_str()); return 2; }
    T().close();
    return 0;
